@@ -796,3 +796,100 @@ func root0(sv *sroaVar, vars map[*types.Var]*sroaVar) *sroaVar {
 	}
 	return sv
 }
+
+// normalizePtrLits rewrites `p := &T{...}` (T a struct type, p a new
+// variable) into `p__s := T{...}; p := &p__s` in statement lists. Every
+// execution of the pair declares a fresh p__s, exactly as every execution of
+// the original allocates a fresh T, so nothing changes; afterwards p is an
+// ordinary pointer to a local struct variable and the scalar replacement can
+// consider both. Returns the number of rewrites.
+func normalizePtrLits(files []*ast.File, info *types.Info, orig map[ast.Node]ast.Node) int {
+	o := func(n ast.Node) ast.Node {
+		if x, ok := orig[n]; ok {
+			return x
+		}
+		return n
+	}
+	isStructLit := func(e ast.Expr) *ast.CompositeLit {
+		ue, ok := e.(*ast.UnaryExpr)
+		if !ok || ue.Op != token.AND {
+			return nil
+		}
+		cl, ok := ue.X.(*ast.CompositeLit)
+		if !ok || cl.Type == nil {
+			return nil
+		}
+		oe, ok := o(cl).(ast.Expr)
+		if !ok {
+			return nil
+		}
+		tv, ok := info.Types[oe]
+		if !ok || tv.Type == nil {
+			return nil
+		}
+		if _, isStruct := tv.Type.Underlying().(*types.Struct); !isStruct {
+			return nil
+		}
+		return cl
+	}
+	n := 0
+	for _, f := range files {
+		for _, d := range f.Decls {
+			fd, ok := d.(*ast.FuncDecl)
+			if !ok || fd.Body == nil {
+				continue
+			}
+			names := map[string]bool{}
+			ast.Inspect(fd, func(x ast.Node) bool {
+				if id, ok := x.(*ast.Ident); ok {
+					names[id.Name] = true
+				}
+				return true
+			})
+			rewrite := func(list []ast.Stmt) []ast.Stmt {
+				var out []ast.Stmt
+				for _, st := range list {
+					as, ok := st.(*ast.AssignStmt)
+					if !ok || as.Tok != token.DEFINE || len(as.Lhs) != 1 || len(as.Rhs) != 1 {
+						out = append(out, st)
+						continue
+					}
+					id, ok := as.Lhs[0].(*ast.Ident)
+					cl := isStructLit(as.Rhs[0])
+					if !ok || cl == nil || id.Name == "_" {
+						out = append(out, st)
+						continue
+					}
+					// the variable must be new (not a redeclaration)
+					if oi, ok := o(id).(*ast.Ident); !ok || info.Defs[oi] == nil {
+						out = append(out, st)
+						continue
+					}
+					nm := id.Name + "__s"
+					for names[nm] {
+						nm += "_"
+					}
+					names[nm] = true
+					n++
+					pos := as.Pos()
+					out = append(out,
+						&ast.AssignStmt{Lhs: []ast.Expr{&ast.Ident{NamePos: pos, Name: nm}}, TokPos: pos, Tok: token.DEFINE, Rhs: []ast.Expr{cl}},
+						&ast.AssignStmt{Lhs: []ast.Expr{id}, TokPos: as.TokPos, Tok: token.DEFINE, Rhs: []ast.Expr{&ast.UnaryExpr{OpPos: pos, Op: token.AND, X: &ast.Ident{NamePos: pos, Name: nm}}}})
+				}
+				return out
+			}
+			ast.Inspect(fd.Body, func(x ast.Node) bool {
+				switch y := x.(type) {
+				case *ast.BlockStmt:
+					y.List = rewrite(y.List)
+				case *ast.CaseClause:
+					y.Body = rewrite(y.Body)
+				case *ast.CommClause:
+					y.Body = rewrite(y.Body)
+				}
+				return true
+			})
+		}
+	}
+	return n
+}
